@@ -275,6 +275,19 @@ def c03(tier, replay):
                 steps.append({"do": "isready"})
             steps.append({"do": "go", "line": rng.choice(GO_ZERO + GO_SMALL)})
         sessions.append(steps)
+    # queen-heavy positions (the first root move alone outlasts a small slice) and the tactical seed positions (promotion
+    # next to castling, en passant, corner captures) with runs of go: the engine answers its own previous answers
+    hp = os.path.join(vcommon.BUILD, "heavy-%d.json" % os.getpid())
+    vcommon.run_harness(h, ["heavy", "--out", hp, "--n", 6 if q else 40, "--queens", 9, "--seed", vcommon.seed() + 3])
+    for fen in json.load(open(hp)):
+        sessions.append([{"do": "send", "line": "position fen " + fen}, {"do": "go", "line": rng.choice(GO_SMALL)}, {"do": "go", "line": rng.choice(GO_ZERO)}])
+    os.remove(hp)
+    tactical = [l.strip() for l in open(os.path.join(vcommon.VERIF, "harness", "seeds.txt")) if l.strip()]
+    for fen in rng.sample(tactical, 10 if q else len(tactical)):
+        steps = [{"do": "send", "line": "position fen " + fen}]
+        for _ in range(4):
+            steps.append({"do": "go", "line": rng.choice(GO_ZERO + GO_ZERO + GO_SMALL)})
+        sessions.append(steps)
     # tiny slices (1-30 ms): the deadline falls into the first root move / the polling sleep
     for _ in range(10 if q else 100):
         steps = []
@@ -680,6 +693,12 @@ def c17(tier, replay):
     for _ in range(3 if q else 20):
         sessions.append([{"do": "send", "line": rng.choice(live)}, {"do": "go_nowait", "line": rng.choice(["go wtime 1100 btime 1100 movestogo 1", "go wtime 600 btime 600 movestogo 1"])},
                          {"do": "gone", "pause_ms": rng.choice([5, 60, 200]), "wait_ms": 4000}])
+        shard.append(rng.randint(0, 1000))
+    # the reader goes away BEFORE the go is written (the very first info line of the search already has nowhere to go)
+    for _ in range(2 if q else 10):
+        sessions.append([{"do": "send", "line": rng.choice(live)}, {"do": "close_stdout"},
+                         {"do": "go_nowait", "line": rng.choice(["go wtime 1100 btime 1100 movestogo 1", "go wtime 475 btime 475 movestogo 1"])},
+                         {"do": "gone", "pause_ms": 1, "wait_ms": 4000}])
         shard.append(rng.randint(0, 1000))
     plan(h, sessions)
     logs = run_sessions(binary, sessions, 8)
